@@ -141,6 +141,7 @@ func runC04(c *Ctx) error {
 	cfgs := []cfgC{{"", "", "", ""}, {"u1", "", "u1", ""}, {"u1", "s1", "u1", "s1"}, {"u1", "s1", "u1", "s2"}, {"u1", "s1", "u1", ""}, {"u1", "", "u2", ""}, {"u1", "s1", "", ""}, {"", "x", "", "x"}}
 	faults := []string{"readdressed", "readdressed", "none", "flip", "flip-unauth", "truncate", "drop", "duplicate", "swap", "replay-earlier-connection", "reflect", "other-challenge", "proof-without-secret", "proof-swapped-addresses", "resigned-by-third-party"}
 
+	skewSide, skewBy := -1, time.Duration(0)
 	nRuns := c.Pick(260, 3000)
 	for run := 0; run < nRuns; run++ {
 		cf := cfgs[c.Rng.IntN(len(cfgs))]
@@ -187,6 +188,23 @@ func runC04(c *Ctx) error {
 			}
 			mutate = func(idx int, d []byte, self *c04End) [][]byte {
 				sent[idx] = d
+				if skewSide >= 0 && idx%2 == skewSide && d != nil {
+					// this router's clock is ahead: the same message, stamped later and signed by the router itself
+					from := A
+					if idx%2 == 1 {
+						from = B
+					}
+					fi := parseFrameInfo(d)
+					if f, err := craftBuilder.NewFrameV1(fi.src, fi.dst, frame.MessageType(fi.ty), nil, c08Body2(d), nil); err == nil {
+						f.SetTTL(0)
+						f.SetSequenceTime(time.UnixMilli(frameTimeMs(d)).Add(skewBy))
+						_ = f.SignRaw(from.id.PrivateKey)
+						f.SetTTL(1)
+						x, _ := f.FrameDataWithMargins(0, 0)
+						d = append([]byte(nil), x...)
+						f.ReturnToPool()
+					}
+				}
 				if idx != target || d == nil {
 					return [][]byte{d}
 				}
@@ -524,6 +542,44 @@ func runC04(c *Ctx) error {
 		check(e3a, e3b, "none", -1)
 		if run < 3 {
 			c.Sample(map[string]any{"cfg": fmt.Sprint(cf), "fault": fault, "message": target, "A": ea.stage, "B": eb.stage})
+		}
+		// ---------- a peer whose clock is ahead ----------
+		// One router signs with a clock an hour ahead (legal: the other accepts and remembers that time).
+		// On its next connection its ack is replaced by the ack of the FIRST connection of this run, made
+		// with the right clock: a replay from an earlier connection, which the receiver must not accept.
+		if run%10 == 9 && cfgs[2] == cf {
+			skewSide, skewBy = run/10%2, time.Hour
+			time.Sleep(4 * time.Millisecond)
+			s1a, s1b, _, err := connect("none", -1, 0, earlier)
+			if err != nil {
+				return err
+			}
+			c.Eval()
+			c.Count("fast-clock:honest")
+			if s1a.stage == 0 && s1b.stage == 0 {
+				skewBy = time.Hour + 10*time.Second
+				tgt := 4 + skewSide
+				time.Sleep(4 * time.Millisecond)
+				faultApplied = false
+				s2a, s2b, _, err := connect("replay-earlier-connection", tgt, 0, earlier)
+				if err != nil {
+					return err
+				}
+				c.Eval()
+				c.Count("fast-clock:ack-of-earlier-connection")
+				c.NonTrivial(fmt.Sprintf("fast-clock/%d", skewSide))
+				victim := s2b
+				if skewSide == 1 {
+					victim = s2a
+				}
+				if faultApplied && victim.stage == 0 {
+					c.Violate("a router completed a handshake in which its peer's ack was replaced by the ack of an earlier connection (the peer's clock is an hour ahead in the current one)", "fault-accepted-replay-with-fast-clock",
+						map[string]any{"fast_side": skewSide, "cfg": fmt.Sprint(cf)})
+				}
+			} else {
+				c.Count("fast-clock:handshake-with-fast-clock-refused")
+			}
+			skewSide = -1
 		}
 	}
 	if err := c04ImpostorAndCrossWired(c); err != nil {
